@@ -808,11 +808,15 @@ class Node:
             if (
                     len(value_node.value) == 1 and
                     value_node.value[0][0].value == value_attribute):
-                new_value.append((key_node, value_node.value[0][1]))
+                new_value.append((copy(key_node), value_node.value[0][1]))
             else:
-                new_value.append((key_node, value_node))
+                new_value.append((copy(key_node), value_node))
 
-        attr_node.yaml_node.value = new_value
+        # replace the mapping rather than modifying it, it may be used
+        # elsewhere in the document as well
+        new_node = copy(attr_node.yaml_node)
+        new_node.value = new_value
+        self.set_attribute(attribute, new_node)
 
     def map_attribute_to_index(
             self,
@@ -955,9 +959,13 @@ class Node:
                         key_node.start_mark, key_node.end_mark)
                 new_mapping.value.append((key_key, copy(key_node)))
 
-            new_value.append((key_node, new_mapping))
+            new_value.append((copy(key_node), new_mapping))
 
-        attr_node.yaml_node.value = new_value
+        # replace the mapping rather than modifying it, it may be used
+        # elsewhere in the document as well
+        new_node = copy(attr_node.yaml_node)
+        new_node.value = new_value
+        self.set_attribute(attribute, new_node)
 
     # Functions for sequences
 
